@@ -10,6 +10,8 @@ package vh
 
 import (
 	"fmt"
+	"reflect"
+	"sort"
 	"strings"
 	"testing"
 	"time"
@@ -48,6 +50,12 @@ func checkC03X(c C03Case, crossProcess bool) error {
 			return fmt.Errorf("date format: engine %v, expected %s; source %s", first, q(c.Want), q(c.Src))
 		}
 	}
+	// the caller keeps its context maps and changes them between renders (one key replaced by
+	// another, same size): the second render on the same engine must be what a fresh engine
+	// makes of the changed data
+	if err := c03MutatedRerender(c); err != nil {
+		return err
+	}
 	if crossProcess {
 		for v := 0; v < 2; v++ {
 			qr := OneShot{Eng: EngSpec{Templates: map[string]string{"main": c.Src}}, Call: "render", Name: "main", Ctx: c.Ctx, Variant: v}
@@ -64,6 +72,73 @@ func checkC03X(c C03Case, crossProcess bool) error {
 	return nil
 }
 
+// c03SwapKey replaces, in every map reachable at the top level of ctx (and one level below),
+// the key that sorts first by another key of the same type; reports whether anything changed.
+func c03SwapKey(ctx map[string]interface{}) bool {
+	changed := false
+	var swap func(v interface{}, depth int)
+	swap = func(v interface{}, depth int) {
+		rv := reflect.ValueOf(v)
+		if !rv.IsValid() || rv.Kind() != reflect.Map || rv.Len() == 0 {
+			return
+		}
+		keys := rv.MapKeys()
+		sort.Slice(keys, func(i, j int) bool { return fmt.Sprint(keys[i]) < fmt.Sprint(keys[j]) })
+		if depth > 0 {
+			for _, k := range keys {
+				ev := rv.MapIndex(k)
+				if ev.Kind() == reflect.Interface && !ev.IsNil() {
+					swap(ev.Interface(), depth-1)
+				}
+			}
+		}
+		k0 := keys[0]
+		var nk reflect.Value
+		switch k0.Kind() {
+		case reflect.String:
+			nk = reflect.ValueOf(k0.String() + "_swapped").Convert(k0.Type())
+		case reflect.Int, reflect.Int64:
+			nk = reflect.ValueOf(k0.Int() + 7777).Convert(k0.Type())
+		case reflect.Uint64:
+			nk = reflect.ValueOf(k0.Uint() - 7777).Convert(k0.Type())
+		case reflect.Interface:
+			nk = reflect.ValueOf(fmt.Sprint(k0.Interface()) + "_swapped")
+		default:
+			return
+		}
+		if rv.MapIndex(nk).IsValid() {
+			return
+		}
+		val := rv.MapIndex(k0)
+		rv.SetMapIndex(k0, reflect.Value{})
+		rv.SetMapIndex(nk, val)
+		changed = true
+	}
+	for _, v := range ctx {
+		swap(v, 1)
+	}
+	return changed
+}
+
+func c03MutatedRerender(c C03Case) error {
+	srcs := map[string]string{"main": c.Src}
+	data := zooCtx(c.Ctx, 0)
+	e := newEngine(srcs)
+	r1 := render(e, "main", data)
+	if r1.Panic != "" {
+		return fmt.Errorf("panic: %s; source %s", r1.Panic, q(c.Src))
+	}
+	if !c03SwapKey(data) {
+		return nil
+	}
+	r2 := render(e, "main", data)
+	want := render(newEngine(srcs), "main", data)
+	if r2.Panic != "" || (r2.Err != "") != (want.Err != "") || r2.Out != want.Out {
+		return fmt.Errorf("after the caller replaced one key of its maps (same size) the engine that rendered them before gives %v, a fresh engine gives %v; source %s", r2, want, q(c.Src))
+	}
+	return nil
+}
+
 // ---- generator ------------------------------------------------------------------------------
 
 var c03Keys = []string{"a", "b", "c", "d", "e", "f", "g", "zz", "k1", "10", "9", "B", "_x", "ab", "1", "01", "1.0", "1e0", "+1", "0x1"}
@@ -71,7 +146,7 @@ var c03Keys = []string{"a", "b", "c", "d", "e", "f", "g", "zz", "k1", "10", "9",
 func genMapDesc(t *rapid.T, depth int, label string) *E {
 	n := rapid.IntRange(2, 8).Draw(t, label+"n")
 	keys := rapid.Permutation(c03Keys).Draw(t, label+"keys")[:n]
-	typ := rapid.SampledFrom([]string{"", "", "map[string]int", "map[string]string", "map[int]string", "map[iface]", "map[int64]string", "map[uint64]string"}).Draw(t, label+"typ")
+	typ := rapid.SampledFrom([]string{"", "", "map[string]int", "map[string]string", "map[int]string", "map[iface]", "map[int64]string", "map[uint64]string", "map[mixed]"}).Draw(t, label+"typ")
 	vals := make([]*E, n)
 	for i := range vals {
 		switch {
@@ -282,7 +357,7 @@ func genC03(t *rapid.T) (C03Case, []string, bool) {
 	}
 }
 
-const c03Rule = "templates that iterate, filter or print maps (untyped, map[string]int, map[string]string, map[int]string, map[int64]string and map[uint64]string with keys beyond 2^53, map[interface{}]interface{}, nested; 2-8 entries) and hash literals with 2-8 entries (also with one key written twice or in several ways: string, number, computed) through for k,v / for v / first / keys / merge / join / json_encode / dump / nested loops / set accumulation; date filters with formats drawn from all 18 translated letters and safe literals (incl. the README's 'D, d M Y'); pointers (to scalars of every width, strings, slices, maps), structs, typed slices, arrays and named types printed in 14 positions (print, filters taking a string, join, format, loops). random(), the current date, empty dates and pointers nested inside printed composites are excluded by construction. non-trivial = a map/hash with >= 2 entries is iterated, filtered or printed, or a date format has >= 2 translated letters, or a non-basic value is printed; distinct by (source, context description)"
+const c03Rule = "templates that iterate, filter or print maps (untyped, map[string]int, map[string]string, map[int]string, map[int64]string and map[uint64]string with keys beyond 2^53, map[interface{}]interface{}, nested; 2-8 entries) and hash literals with 2-8 entries (also with one key written twice or in several ways: string, number, computed) through for k,v / for v / first / keys / merge / join / json_encode / dump / nested loops / set accumulation; date filters with formats drawn from all 18 translated letters and safe literals (incl. the README's 'D, d M Y'); pointers (to scalars of every width, strings, slices, maps), structs, typed slices, arrays and named types printed in 14 positions (print, filters taking a string, join, format, loops). every case is also rendered a second time on the same engine after one key of each context map was replaced by another (same map objects, same sizes) and compared with a fresh engine. random(), the current date, empty dates and pointers nested inside printed composites are excluded by construction. non-trivial = a map/hash with >= 2 entries is iterated, filtered or printed, or a date format has >= 2 translated letters, or a non-basic value is printed; distinct by (source, context description)"
 
 func TestC03Determinism(t *testing.T) {
 	r := NewRec(t, "C03", c03Rule)
